@@ -11,7 +11,10 @@ index and compared with the spec's global database, InterrogateDatabase::write i
 the spec's writer.  Real databases written by `interrogate -od` go through the spec's reader (TLC) and through
 the library the same way; their prefixes must be flagged whole as well.  HISTORIES (spec IdbFileHist): two or
 three files of different minor formats, each with elements (the version-gated record kind), are loaded into ONE
-process, one by one and all at once, and queried / re-serialised the same way."""
+process, one by one and all at once, and queried / re-serialised the same way; MIXED histories put a truncated /
+newer-major / newer-minor / out-of-sync file before, between and after good ones: interrogate_error_flag() is read
+after every file (once raised it stays raised; the interface offers nothing to reset it) and the good files are
+still merged completely."""
 import os, json, threading, time
 from ..common import MachineryError, REPO, HARNESS, NCPU
 from .. import build, tlc, run
@@ -257,36 +260,43 @@ def replay_histories(ctx, table, res, hdump, base_path):
     cases, index = [], {}
     for n, h in enumerate(hs):
         texts = [Q.tobytes(f).decode("latin-1") for f in h["files"]]
+        reqs = [["mod", {"id": did, "dbmem": t}] if did else ["dbmem", t] for t, did in zip(texts, h["defids"])]
         hd = h["hdrs"]
         maxidx = h["gnext"] + 1
-        for staged in (True, False):
-            setup = [["db", base_path], ["touch"]] if h["pre"] == "base" else []
-            for t in texts:
-                setup.append(["dbmem", t])
-                if staged:
-                    setup.append(["touch"])
-            cid = "h%d%s" % (n, "s" if staged else "a")
-            cases.append({"id": cid, "setup": setup,
-                          "queries": [["c", "interrogate_number_of_types"], ["c", "interrogate_error_flag"],
-                                      ["dump", maxidx, MAXPOS],
-                                      ["rewrite", hd["id"], Q.b2s(hd["lib"]), Q.b2s(hd["hash"]), Q.b2s(hd["mod"])]]})
-            index[cid] = (h, staged)
+        tail = [["c", "interrogate_number_of_types"], ["c", "interrogate_error_flag"], ["dump", maxidx, MAXPOS],
+                ["rewrite", hd["id"], Q.b2s(hd["lib"]), Q.b2s(hd["hash"]), Q.b2s(hd["mod"])]]
+        pre = [["db", base_path], ["touch"]] if h["pre"] == "base" else []
+        # one by one: the error flag is observed after EVERY file
+        queries = []
+        for rq in reqs:
+            queries += [rq, ["c", "interrogate_number_of_types"], ["c", "interrogate_error_flag"]]
+        cases.append({"id": "h%ds" % n, "setup": pre, "queries": queries + tail})
+        index["h%ds" % n] = (h, True)
+        # all requested together, loaded by one query
+        cases.append({"id": "h%da" % n, "setup": pre + reqs, "queries": tail})
+        index["h%da" % n] = (h, False)
     results = Q.run_driver(ctx, cases, timeout=10, tag="hist")
     exp_cache = {}
     for cid, (h, staged) in index.items():
-        what = "history of %d files in formats %s (%s, preloaded: %s)" % (
-            len(h["files"]), ", ".join("3.%d" % m for m in h["minors"]),
+        what = "history of %d files %s (%s, preloaded: %s)" % (
+            len(h["files"]), ", ".join("3.%d%s" % (m, "" if k == "ok" else " " + k) for m, k in zip(h["minors"], h["kinds"])),
             "each loaded before the next is requested" if staged else "requested together", h["pre"])
-        payload = dict(files=[Q.tobytes(f).decode("latin-1") for f in h["files"]], minors=h["minors"], preloaded=h["pre"],
-                       staged=staged, stderr=results[cid]["stderr"])
+        payload = dict(files=[Q.tobytes(f).decode("latin-1") for f in h["files"]], minors=h["minors"], kinds=h["kinds"],
+                       preloaded=h["pre"], staged=staged, stderr=results[cid]["stderr"])
         rr = results[cid]["r"]
         deaths = [x for x in rr if Q.died(x)]
         if deaths or len(rr) < 4:
             ctx.violation("loading a %s: %s" % (what, Q.describe_death(deaths[0]) if deaths else "no answer"), payload)
             continue
-        _, flag, dump, rw = rr
-        if flag:
-            ctx.violation("%s: the error flag is set, the spec demands every file to load" % what, payload)
+        if staged:
+            seen = [bool(rr[3 * i + 2]) for i in range(len(h["files"]))]
+            if seen != h["flags"]:
+                ctx.violation("%s: interrogate_error_flag() after each file is %s, the spec demands %s (once raised it stays raised)"
+                              % (what, seen, h["flags"]), payload)
+                continue
+        _, flag, dump, rw = rr[-4:]
+        if bool(flag) != h["err"]:
+            ctx.violation("%s: the error flag is %s at the end, the spec demands %s" % (what, bool(flag), h["err"]), payload)
             continue
         key = id(h)
         if key not in exp_cache:
